@@ -6,9 +6,10 @@ Correspondence, per case (language, configuration, Rust source):
     extracted model (`gen_src`) on the same source; the bytes must be equal (fidelity is decisive here);
   * the judgement runs on the REAL bytes: the extracted Gallina lexer of the language (c10_lex), the
     extracted keyword predicates (good_C10_kw, good_C10_swift_labels) on the declaring positions that
-    lib/extract.py finds in the real text, and the grammar validators: CPython ast.parse + import
-    against lib/pydantic_stub for Python, the template recognisers of lib/extract.py (nothing unparsed,
-    no anomaly) for the other five, plus `= _` in a Scala parameter list;
+    lib/extract.py finds in the real text, and the grammar validators: the extracted Gallina recogniser of
+    the TypeScript declaration grammar (Spec/C10TsGrammar.v), CPython ast.parse + a declaration grammar over
+    its AST + import against lib/pydantic_stub for Python, the template recognisers of lib/extract.py
+    (nothing unparsed, no anomaly) for all six, plus `= _` in a Scala parameter list;
   * dom_C10 / known_C10 (extracted) on the IR the REAL parser produced classify the case.
 Also lexed: every snapshot expectation file of /repo/core/data/tests."""
 import ast, glob, json, os, pathlib, re, sys, types
@@ -212,7 +213,7 @@ def judge(chk, cases, tag):
     """cases: list of (lang, cfg, src, meta). Runs both sides, judges the real bytes."""
     res = back.run_src([(l, c, s, []) for l, c, s, _ in cases])
     # extracted judgements on the real bytes / real IR
-    lexq, clsq, kwq, idx = [], [], [], []
+    lexq, clsq, kwq, tsq, idx = [], [], [], [], []
     obs = {}
     for k, (r, (lang, cfg, src, meta)) in enumerate(zip(res, cases)):
         if r['impl'][0] != 'ok':
@@ -223,9 +224,12 @@ def judge(chk, cases, tag):
         clsq.append(f'(c10_cls {lang} {S(cfg.get("package", ""))} {back.items_sx(r["ir"])})')
         obs[k] = observe(lang, text)
         kwq.append(kw_request(lang, obs[k][0], obs[k][1]))
-    ans = vf.model(lexq + clsq + kwq)
+        if lang == 'typescript':
+            tsq.append((k, f'(c10_ts_parse {S(text)})'))
+    ans = vf.model(lexq + clsq + kwq + [q for _, q in tsq])
     n = len(idx)
-    lexa, clsa, kwa = ans[:n], ans[n:2 * n], ans[2 * n:]
+    lexa, clsa, kwa = ans[:n], ans[n:2 * n], ans[2 * n:3 * n]
+    tsa = dict(zip([k for k, _ in tsq], ans[3 * n:]))
     # the model's own observation of the declaring positions (extractor self-check + correspondence)
     srcs = sorted(set(cases[k][2] for k in idx))
     asts = dict(zip(srcs, vf.impl([{'cmd': 'ast', 'src': s} for s in srcs])))
@@ -254,6 +258,9 @@ def judge(chk, cases, tag):
             fails.append('lex')
             pos = int(lex[1][1:]) if lex[0] == 'error' else len(text)
             why.append(f'lexer: {lex[0]} at offset {pos} in state {vf.dump_sx(lex[-1])}: ...{text[max(0, pos - 40):pos + 10]!r}')
+        if k in tsa and tsa[k] == 'none':
+            fails.append('ts-grammar')
+            why.append('the extracted recogniser of the TypeScript declaration grammar (Spec/C10TsGrammar.v) rejects the text')
         if vf.sx_get(kwa[j], 'kw') != 'true':
             fails.append('keyword')
             why.append('a declared name that is a keyword of the language is not escaped')
@@ -320,6 +327,8 @@ def lex_expectations(chk):
         files += [(lang, f) for f in sorted(glob.glob(str(vf.REPO / 'core' / 'data' / 'tests' / '*' / f'output.{EXT[lang]}')))]
     texts = [open(f, encoding='utf-8').read() for _, f in files]
     ans = vf.model([f'(c10_lex {l} {S(t)})' for (l, _), t in zip(files, texts)])
+    tsans = vf.model([f'(c10_ts_parse {S(t)})' for (l, _), t in zip(files, texts) if l == 'typescript'])
+    tsit = iter(tsans)
     blame = {'scala-default': 'C10-scala-default', 'py-grammar': 'C10-python-generic-alias'}
     for (lang, f), t, a in zip(files, texts, ans):
         chk.count('expectation_files')
@@ -327,6 +336,9 @@ def lex_expectations(chk):
         if a[0] != 'balanced':
             fails = fails + ['lex']
             why = why + [vf.dump_sx(a)]
+        if lang == 'typescript' and next(tsit) == 'none':
+            fails = fails + ['ts-grammar']
+            why = why + ['rejected by the extracted TypeScript recogniser']
         name = pathlib.Path(f).parent.name
         for k in fails:
             if k == 'py-grammar' and not any('Subscript' in w for w in why):
